@@ -279,7 +279,7 @@ func racePass(rep *report.Reporter, cov report.Coverage, budget time.Duration) {
 	root := report.Root()
 	ov := filepath.Join(b, "ov-race")
 	os.RemoveAll(ov)
-	if out, err := exec.Command(filepath.Join(b, "xform"), "-repo", repo, "-out", ov, "-hooks", filepath.Join(root, "hooks")).CombinedOutput(); err != nil {
+	if out, err := exec.Command(filepath.Join(b, "xform"), "-repo", repo, "-out", ov, "-hooks", filepath.Join(root, "hooks"), "-hooks", filepath.Join(root, "harness", "c16", "hooks")).CombinedOutput(); err != nil {
 		report.Fatal("race pass: xform failed: %v %s", err, out)
 	}
 	args := []string{"build", "-race", "-tags", "verif", "-overlay", filepath.Join(ov, "overlay.json"), "-o", filepath.Join(b, "racebin")}
